@@ -156,3 +156,45 @@ Proof.
            p a meth s d m n Ha Hm Hn Hs).
   eapply Forall_impl; [|exact Hok]. intros v Hv. unfold ok32. rewrite Hv. reflexivity.
 Qed.
+
+(* ---- all five entry points with single / complete on NaN-free input whose
+   entries are strictly below the max_value sentinel ---- *)
+Lemma f64_eqb_refl_ok (x : PrimFloat.float) : ok64 x = true -> PrimFloat.eqb x x = true.
+Proof.
+  unfold ok64. intros H. rewrite eqb_equiv, Beqb_refl. rewrite <- is_nan_equiv. exact H.
+Qed.
+
+Lemma f32_eqb_refl_ok (x : f32) : ok32 x = true -> Beqb x x = true.
+Proof. unfold ok32. intros H. rewrite Beqb_refl. exact H. Qed.
+
+Theorem selection_total_wf_all_f64 (p : profile) (a : algo) (meth : method) s d (m : list PrimFloat.float) (n : N) :
+  meth = Single \/ meth = Complete ->
+  (n < two32)%N -> wf_shape n (N.of_nat (length m)) ->
+  Forall (fun v => PrimFloat.ltb v (f_max F64) = true) m ->
+  (exists s' d' m', run_with F64 p a meth s d m n = Ok (s', d', m') /\ wf_dend (d_obs d') (d_steps d'))
+  \/ run_with F64 p a meth s d m n = Panic PNaN.
+Proof.
+  intros Hm Hn Hs Hmax.
+  apply (@selection_total_wf_carrier_all _ F64 ok64 eq_refl eq_refl f64_ltb_irrefl f64_ltb_trans
+           ltac:(intros x y z Hx Hy Hz; apply f64_ltb_negtrans; unfold ok64 in *;
+                 [destruct (PrimFloat.is_nan x)|destruct (PrimFloat.is_nan y)|destruct (PrimFloat.is_nan z)]; (reflexivity || discriminate))
+           f64_eqb_refl_ok p a meth s d m n Hm Hn Hs); [|exact Hmax].
+  eapply Forall_impl; [|exact Hmax]. intros v Hv. cbn beta in Hv. unfold ok64.
+  rewrite ltb_equiv in Hv. rewrite is_nan_equiv. destruct (Bltb_true_not_nan _ _ _ _ Hv) as [-> _]. reflexivity.
+Qed.
+
+Theorem selection_total_wf_all_f32 (p : profile) (a : algo) (meth : method) s d (m : list f32) (n : N) :
+  meth = Single \/ meth = Complete ->
+  (n < two32)%N -> wf_shape n (N.of_nat (length m)) ->
+  Forall (fun v => Bltb v (f_max F32) = true) m ->
+  (exists s' d' m', run_with F32 p a meth s d m n = Ok (s', d', m') /\ wf_dend (d_obs d') (d_steps d'))
+  \/ run_with F32 p a meth s d m n = Panic PNaN.
+Proof.
+  intros Hm Hn Hs Hmax.
+  apply (@selection_total_wf_carrier_all _ F32 ok32 eq_refl eq_refl (@Bltb_irrefl 24 128) (@Bltb_trans 24 128)
+           ltac:(intros x y z Hx Hy Hz; apply (@Bltb_negtrans 24 128); unfold ok32 in *;
+                 [destruct (BinarySingleNaN.is_nan x)|destruct (BinarySingleNaN.is_nan y)|destruct (BinarySingleNaN.is_nan z)]; (reflexivity || discriminate))
+           f32_eqb_refl_ok p a meth s d m n Hm Hn Hs); [|exact Hmax].
+  eapply Forall_impl; [|exact Hmax]. intros v Hv. cbn beta in Hv. unfold ok32.
+  destruct (Bltb_true_not_nan _ _ _ _ Hv) as [-> _]. reflexivity.
+Qed.
